@@ -164,12 +164,12 @@ def pair_obligations(run, funcs, pid='C03'):
 def check(run):
     funcs, info = engine.load_mir('ibig')
     run.mir_info.append(info)
-    pair_obligations(run, funcs, 'C03')
-    nnrules.shift_reciprocity(run, funcs, 'C03')
+    run.guard(pair_obligations, funcs, 'C03')
+    run.guard(nnrules.shift_reciprocity, funcs, 'C03')
     # reciprocity needs both cells to be clipped by each other (also by images of their own generator) inside a box that contains the images
     from . import geomrules as GR
-    GR.build_loop(run, funcs, 'C03')
-    GR.cuboid(run, funcs, 'C03')
+    run.guard(GR.build_loop, funcs, 'C03')
+    run.guard(GR.cuboid, funcs, 'C03')
     run.assume('equality of area/centroid seen from both sides and antisymmetric flux cancellation need both cells\' float geometry: outside the claim')
     run.assume('cells are labelled by their position (idx = generator index): established by C12 / C07.b')
     return run.finish(LEVEL, EXPLANATION, trusted=['rustc -Zunpretty=mir', 'z3 5.1.0 / 4.8.12, cvc5 1.0.3', 'std Option/Vec/iterator models of mirsym'])
